@@ -159,7 +159,9 @@ func entry(resource string, options *EntryOptions) (*base.SentinelEntry, *base.B
 	ctx.Input.BatchCount = options.batchCount
 	ctx.Input.Flag = options.flag
 	if len(options.args) != 0 {
-		ctx.Input.Args = options.args
+		// Copy the arguments: options (and its args slice) goes back to the pool when Entry returns
+		// and is reused by the next Entry call, while ctx stays alive until the entry exits.
+		ctx.Input.Args = append(ctx.Input.Args[:0], options.args...)
 	}
 	if len(options.attachments) != 0 {
 		ctx.Input.Attachments = options.attachments
